@@ -513,10 +513,21 @@ func (r *RefRun) decide(s *Step) bool {
 	if stopped {
 		// the stop condition competes with the step's own progress: which terminal stage it
 		// reports and whether the plugin runs depends on timing
-		r.Unique = false
+		// (consumers of a timing-dependent status make the whole result non-unique, see evalProgram)
 		oc.What = "stopped-race"
 		oc.MayRun = true
 		r.setAll(s.ID, pluginOutputs, nil, U)
+		switch sc.Run {
+		case env.RunHangIgnore:
+			// it is closed before it starts or force-closed while running: no declared output either way
+			for _, o := range []string{"success", "error", "cancelled_early"} {
+				r.St[key(s.ID, "outputs", o)] = I
+			}
+		case env.RunHangCancel:
+			for _, o := range []string{"success", "error"} {
+				r.St[key(s.ID, "outputs", o)] = I
+			}
+		}
 		return true
 	}
 	// deployment
